@@ -629,8 +629,22 @@ DIAMOND = [(0, 2), (1, 3), (3, 1), (2, 0)]
 
 @st.composite
 def s_poly_shape(draw, offs):
-    kind = draw(st.sampled_from(["box", "box", "tri", "tri", "L", "hole", "diamond"]))
-    if kind == "box":
+    kind = draw(st.sampled_from(["box", "box", "tri", "tri", "L", "hole", "diamond", "two_row", "two_col", "two_diag"]))
+    multi = kind.startswith("two")
+    if multi:
+        # two-part query: parts in the same tile row / column with whole tiles between them, or diagonal
+        gap = draw(st.sampled_from([1, 1, 2, 3]))
+        w = draw(st.sampled_from([1, 1, 2]))
+        a = [(0, 0), (0, 1), (w, 1), (w, 0)]
+        if kind == "two_row":
+            dx, dy = w + gap, 0
+        elif kind == "two_col":
+            a = [(0, 0), (0, w), (1, w), (1, 0)]
+            dx, dy = 0, w + gap
+        else:
+            dx, dy = w + gap, 1 + gap
+        rings = [a, [(x + dx, y + dy) for x, y in a]]
+    elif kind == "box":
         w, h = draw(st.sampled_from([1, 1, 2, 3])), draw(st.sampled_from([1, 1, 2, 3]))
         rings = [[(0, 0), (0, h), (w, h), (w, 0)]]
     elif kind == "tri":
@@ -646,7 +660,7 @@ def s_poly_shape(draw, offs):
     else:
         rings = [[(0, 0), (0, 3), (3, 3), (3, 0)], [(1, 1), (2, 1), (2, 2), (1, 2)]]
     o = st.sampled_from(offs)
-    if kind in ("box", "L", "hole"):
+    if kind in ("box", "L", "hole") or multi:
         # rectilinear: one offset per distinct grid line keeps edges axis-parallel
         xs = {x for ring in rings for x, _ in ring}
         ys = {y for ring in rings for _, y in ring}
@@ -655,7 +669,7 @@ def s_poly_shape(draw, offs):
         out = [[[[x, ox[x]], [y, oy[y]]] for x, y in ring] for ring in rings]
     else:
         out = [[[[x, draw(o)], [y, draw(o)]] for x, y in ring] for ring in rings]
-    return {"kind": kind, "rings": out, "shift": [draw(st.sampled_from([-1, 0, 0, 0])), draw(st.sampled_from([-1, 0, 0, 0]))]}
+    return {"kind": kind, "rings": out, "multi": multi, "shift": [draw(st.sampled_from([-1, 0, 0, 0])), draw(st.sampled_from([-1, 0, 0, 0]))]}
 
 
 @st.composite
@@ -692,11 +706,17 @@ def o_poly(case, T):
     idx = case["idx"]
     gs = M.mk()
     rings, kmin, kmax = _poly_coords(M, gs, idx, case["poly"], case["src"])
-    sp = sg.Polygon(rings[0], rings[1:])
+    if case["poly"].get("multi"):
+        sp = sg.MultiPolygon([sg.Polygon(r) for r in rings])
+    else:
+        sp = sg.Polygon(rings[0], rings[1:])
     if not sp.is_valid or sp.area <= 0:
         T.exclude("degenerate_polygon")
         return
-    gp = geom.polygon(rings[0], mk_crs_spec(case["g"]["crs"]), *rings[1:])
+    if case["poly"].get("multi"):
+        gp = geom.multipolygon([[r] for r in rings], mk_crs_spec(case["g"]["crs"]))
+    else:
+        gp = geom.polygon(rings[0], mk_crs_spec(case["g"]["crs"]), *rings[1:])
     res = _collect(gs.tiles_from_geopolygon(gp))
     got = set(_check_returned(gs, res, "tiles_from_geopolygon"))
     W = Window(M, gs, (kmin[0] - 2, kmax[0] + 2), (kmin[1] - 2, kmax[1] + 2))
@@ -856,7 +876,8 @@ def o_xcrs(case, T):
     if not all(math.isfinite(v) for r in rings_s for p in r for v in p) or not math.isfinite(dev):
         T.exclude("projection_not_finite")
         return
-    sp = sg.Polygon(rings_s[0], rings_s[1:])
+    multi = bool(case["poly"].get("multi"))
+    sp = sg.MultiPolygon([sg.Polygon(r) for r in rings_s]) if multi else sg.Polygon(rings_s[0], rings_s[1:])
     if not sp.is_valid or sp.area <= 0:
         T.exclude("invalid_after_projection")
         return
@@ -867,7 +888,7 @@ def o_xcrs(case, T):
         T.exclude("curvature_band_wider_than_quarter_tile")
         return
     qspec = mk_crs_spec({"label": ql, "spell": case["qspell"]})
-    gp = geom.polygon(rings_q[0], qspec, *rings_q[1:])
+    gp = geom.multipolygon([[r] for r in rings_q], qspec) if multi else geom.polygon(rings_q[0], qspec, *rings_q[1:])
     res_ = _collect(gs.tiles_from_geopolygon(gp))
     got = set(_check_returned(gs, res_, "tiles_from_geopolygon"))
     # window from the oracle's bounding box
